@@ -63,8 +63,40 @@ class Sets(ast.NodeVisitor):
     self.generic_visit(n)
 
 
-def function_sites(rel, fn, qual):
+MUTATORS = {'append', 'add', 'update', 'setdefault', 'pop', 'popitem', 'clear', 'extend', 'insert', 'remove',
+            'discard', 'sort', 'reverse', 'appendleft'}
+
+
+def module_mutables(tree):
+  """Names bound at module level to a mutable container (dict / list / set literal or constructor)."""
+  out = set()
+  for ch in tree.body:
+    if isinstance(ch, (ast.Assign, ast.AnnAssign)):
+      v = ch.value
+      mutable = isinstance(v, (ast.Dict, ast.List, ast.Set, ast.DictComp, ast.ListComp, ast.SetComp)) or (
+          isinstance(v, ast.Call) and _src(v.func).split('.')[-1] in (
+              'dict', 'list', 'set', 'defaultdict', 'OrderedDict', 'deque', 'Counter'))
+      if mutable:
+        for t in (ch.targets if isinstance(ch, ast.Assign) else [ch.target]):
+          if isinstance(t, ast.Name):
+            out.add(t.id)
+  return out
+
+
+def function_sites(rel, fn, qual, module_names=()):
   sites = []
+  # F5 (module-level container mutated from a function: a cache / registry shared between compilations)
+  local = {a.arg for a in fn.args.args + fn.args.kwonlyargs} | \
+      {t.id for n in ast.walk(fn) if isinstance(n, ast.Assign) for t in n.targets if isinstance(t, ast.Name)}
+  shared = set(module_names) - local
+  for n in ast.walk(fn):
+    if isinstance(n, (ast.Assign, ast.AugAssign, ast.Delete)):
+      for t in (n.targets if isinstance(n, (ast.Assign, ast.Delete)) else [n.target]):
+        if isinstance(t, ast.Subscript) and isinstance(t.value, ast.Name) and t.value.id in shared:
+          sites.append(('F5', 'module-level container written: ' + _src(n)[:80]))
+    if isinstance(n, ast.Call) and isinstance(n.func, ast.Attribute) and n.func.attr in MUTATORS and \
+        isinstance(n.func.value, ast.Name) and n.func.value.id in shared:
+      sites.append(('F5', 'module-level container mutated: ' + _src(n)[:80]))
   for d in fn.decorator_list:
     if 'cache' in _src(d):
       sites.append(('F5', 'decorator ' + _src(d)))
@@ -136,13 +168,14 @@ def inventory():
   for rel in FILES:
     path = os.path.join(REPO, rel)
     tree = ast.parse(open(path, encoding='utf-8').read())
+    mm = module_mutables(tree)
 
     def walk(node, prefix):
       for ch in ast.iter_child_nodes(node):
         if isinstance(ch, ast.ClassDef):
           walk(ch, prefix + ch.name + '.')
         elif isinstance(ch, (ast.FunctionDef, ast.AsyncFunctionDef)):
-          out.extend(function_sites(rel, ch, prefix + ch.name))
+          out.extend(function_sites(rel, ch, prefix + ch.name, mm))
     walk(tree, '')
   # de-duplicate while keeping order
   seen, res = set(), []
